@@ -242,7 +242,14 @@ class Metadata(CbMixin, ProgMixin):
         self.meta_version = info.get("meta version", 1)
         self.pieces = info.get("pieces", bytes())
         if self.meta_version == 2:
-            self._parse_tree(info["file tree"], [self.name])
+            tree = info["file tree"]
+            if "length" in info or ("files" not in info and list(tree) == [
+                    self.name
+            ] and "" in tree[self.name]):
+                # single file torrent: the file is not nested in a directory
+                self._parse_tree(tree, [])
+            else:
+                self._parse_tree(tree, [self.name])
         elif "length" in info:
             self.length += info["length"]
             self.is_file = True
@@ -327,7 +334,7 @@ class Metadata(CbMixin, ProgMixin):
         for key, val in tree.items():
             if "" in val:
                 self.filenames.add(key)
-                path = Path(os.path.join(*partials))
+                path = Path(os.path.join("", *partials))
                 full = Path(os.path.join(path, key))
                 length = val[""]["length"]
                 root = val[""].get("pieces root")
